@@ -151,8 +151,35 @@ def _mentions(t, var):
         if u[0] == 'a' and isinstance(u[1], str) and var in u[1]: return True
     return False
 
+def _byte_of(t):
+    """t == byte j of x  ->  (x, j)"""
+    if t[0] == 'and' and t[2] == C(255):
+        u = t[1]
+        if u[0] == 'shr' and u[2][0] == 'c' and u[2][1] % 8 == 0: return u[1], u[2][1] // 8
+        return u, 0
+    if t[0] == 'shr' and t[2][0] == 'c' and t[2][1] % 8 == 0:
+        lo, hi = rng(t)
+        if lo >= 0 and hi <= 255: return t[1], t[2][1] // 8
+    return None
+
+def merge_bytes(segs):
+    """consecutive single-byte segments that are bytes 0..k-1 of one term x < 2^(8k) form the k-byte integer x"""
+    out = []; i = 0
+    while i < len(segs):
+        s = segs[i]
+        b = _byte_of(s[1]) if s[0] == 'int' and s[2] == 1 else None
+        if b and b[1] == 0:
+            x = b[0]; k = 1
+            while i + k < len(segs) and segs[i + k][0] == 'int' and segs[i + k][2] == 1 and _byte_of(segs[i + k][1]) == (x, k): k += 1
+            lo, hi = rng(x)
+            if k > 1 and lo >= 0 and hi < (1 << (8 * k)):
+                out.append(('int', x, k)); i += k; continue
+        out.append(s); i += 1
+    return out
+
 def norm_segs(segs):
-    """canonical form: split constants to single bytes? no - keep ints; merge nothing; drop empties"""
+    """canonical form: empty segments dropped, constant conditions resolved, byte-wise pushes of one integer merged"""
+    segs = merge_bytes(list(segs))
     out = []
     for s in segs:
         if s[0] == 'cond':
